@@ -199,7 +199,11 @@ func zzStepMakers(vary int, pos *int, classes int) *zzMakers {
 		Expr: func(field string, i int) ast.Expr {
 			switch field {
 			case "LetsStmt.LHSS", "LetsExpr.LHSS", "LetMapItemStmt.LHSS", "ChanStmt.LHS", "ChanStmt.OkExpr":
-				// assignment targets: every l-value kind and a non-l-value
+				// assignment targets: every l-value kind and a non-l-value (the
+				// first target of a list varies, the others are identifiers)
+				if i > 0 || field == "ChanStmt.OkExpr" {
+					return zzIdent("v2")
+				}
 				switch zz.Choose(6) {
 				case 0:
 					return zzIdent("x")
@@ -253,8 +257,25 @@ func zzStepKind(k int, classes int) {
 	node := zzBuild(k, zzStepMakers(vary, &pos, classes), &kids)
 	zzConfigure(node)
 	e := zzStepEnv()
+	zz.Budget(300000) // non-terminating loops are cut (counted, outside the claim)
+	// C14-F1: the tree and every object that existed after package
+	// initialisation are read-only during the run (engine: write barrier;
+	// natively: structural dump before/after)
+	before := ""
+	if zz.Symbolic() {
+		zz.Freeze(node)
+		zz.FreezeGlobals()
+	} else {
+		before = zzDump(node)
+	}
 	v, err, panicked := zzRunNode(e, node, zzKindCat[k])
 	zz.Drain()
+	if zz.Symbolic() {
+		zz.Assertf(zz.Events("frozen-write") == 0, "C14.F1.tree-and-globals-read-only/"+kind, zz.EventText("frozen-write"))
+		zz.Unfreeze()
+	} else {
+		zz.Assert(zzDump(node) == before, "C14.F1.tree-and-globals-read-only/"+kind)
+	}
 	zz.Assertf(!panicked, "C01.step.no-panic/"+kind, zzPanicMsg)
 	zz.Assert(zz.GoroutineCrashes() == 0, "C01.step.no-goroutine-crash/"+kind)
 	if panicked {
@@ -279,3 +300,72 @@ func zzStepKind(k int, classes int) {
 const zzQuickClasses = uChanClosed
 
 var _ = reflect.ValueOf
+
+// zzDump is a structural dump of a tree (native replay oracle for C14-F1;
+// never executed by the engine).
+func zzDump(x interface{}) string {
+	var sb []byte
+	seen := map[uintptr]bool{}
+	var walk func(v reflect.Value, depth int)
+	walk = func(v reflect.Value, depth int) {
+		if depth > 40 || !v.IsValid() {
+			sb = append(sb, "<>"...)
+			return
+		}
+		if v.Type() == reflect.TypeOf(reflect.Value{}) {
+			rv := v.Interface().(reflect.Value)
+			if !rv.IsValid() {
+				sb = append(sb, "rv<invalid>"...)
+				return
+			}
+			sb = append(sb, ("rv(" + rv.Type().String() + ":")...)
+			switch rv.Kind() {
+			case reflect.Func, reflect.Chan, reflect.Ptr, reflect.Map, reflect.UnsafePointer:
+				sb = append(sb, fmt.Sprintf("%x", rv.Pointer())...)
+			case reflect.Slice:
+				sb = append(sb, fmt.Sprintf("%x/%d", rv.Pointer(), rv.Len())...)
+			default:
+				if rv.CanInterface() {
+					sb = append(sb, fmt.Sprintf("%#v", rv.Interface())...)
+				}
+			}
+			sb = append(sb, ')')
+			return
+		}
+		switch v.Kind() {
+		case reflect.Ptr, reflect.Interface:
+			if v.IsNil() {
+				sb = append(sb, "nil"...)
+				return
+			}
+			if v.Kind() == reflect.Ptr {
+				if seen[v.Pointer()] {
+					sb = append(sb, "<cycle>"...)
+					return
+				}
+				seen[v.Pointer()] = true
+				sb = append(sb, ("&" + v.Type().Elem().String())...)
+			}
+			walk(v.Elem(), depth+1)
+		case reflect.Struct:
+			sb = append(sb, '{')
+			for i := 0; i < v.NumField(); i++ {
+				sb = append(sb, (v.Type().Field(i).Name + ":")...)
+				walk(v.Field(i), depth+1)
+				sb = append(sb, ' ')
+			}
+			sb = append(sb, '}')
+		case reflect.Slice, reflect.Array:
+			sb = append(sb, fmt.Sprintf("[%d:", v.Len())...)
+			for i := 0; i < v.Len(); i++ {
+				walk(v.Index(i), depth+1)
+				sb = append(sb, ' ')
+			}
+			sb = append(sb, ']')
+		default:
+			sb = append(sb, fmt.Sprintf("%v", v)...)
+		}
+	}
+	walk(reflect.ValueOf(x), 0)
+	return string(sb)
+}
